@@ -39,9 +39,11 @@ theorem C16_stmt_transparent (sc : Schema) (cfg : Cfg) (t : Table) (args : Args)
     simp only [stmtPhase1] at h
     split at h
     · cases h
-    · rename_i t1 n hap
-      simp only [Except.ok.injEq, Prod.mk.injEq] at h
-      exact ⟨n, by rw [hap, ← h.1]⟩
+    · split at h
+      · cases h
+      · rename_i t1 n hap
+        simp only [Except.ok.injEq, Prod.mk.injEq] at h
+        exact ⟨n, by rw [hap, ← h.1]⟩
   | updateLim sets w ord lim =>
     simp only [stmtPhase1] at h
     split at h
@@ -52,30 +54,38 @@ theorem C16_stmt_transparent (sc : Schema) (cfg : Cfg) (t : Table) (args : Args)
     simp only [stmtPhase1, apply, Except.ok.injEq, Prod.mk.injEq] at h ⊢
     exact ⟨_, h.1, rfl⟩
 
-/-- a statement the database refuses is refused through the proxy with the same error, nothing changed -/
+/-- a statement the database refuses is refused through the proxy too, nothing changed: with the same
+    error, or (an upsert whose ON DUPLICATE KEY UPDATE clause names a key column) before it reaches the database -/
 theorem C16_stmt_error (sc : Schema) (cfg : Cfg) (t : Table) (args : Args) (s : Stmt) (e : SqlErr)
-    (h : apply sc t args s = .error e) : stmtPhase1 sc cfg t args s = .error (.sql e) := by
+    (h : apply sc t args s = .error e) :
+    stmtPhase1 sc cfg t args s = .error (.sql e) ∨ stmtPhase1 sc cfg t args s = .error .pkChanged := by
   cases s with
   | update sets w => simp [apply] at h
   | delete w => simp [apply] at h
-  | insert rows => simp only [stmtPhase1, h]
+  | insert rows => left; simp only [stmtPhase1, h]
   | failing s =>
     simp only [apply, Except.error.injEq] at h
     subst h
-    rfl
-  | upsert rows assign => simp only [stmtPhase1, h]
+    left; rfl
+  | upsert rows assign =>
+    simp only [stmtPhase1]
+    split
+    · right; rfl
+    · left; simp only [h]
   | updateLim sets w ord lim => simp [apply] at h
   | deleteLim w ord lim => simp [apply] at h
 
-/-- the only statements the proxy refuses although the database would run them: UPDATEs (plain or with
-    ORDER BY / LIMIT) that name a key column or move a row to another key -/
+/-- the only statements the proxy refuses on its own account: UPDATEs (plain or with ORDER BY / LIMIT)
+    that name a key column or move a row to another key — the database would run them — and upserts
+    whose ON DUPLICATE KEY UPDATE clause names a key column -/
 theorem C16_only_key_changes_rejected (sc : Schema) (cfg : Cfg) (t : Table) (args : Args) (s : Stmt)
     (h : stmtPhase1 sc cfg t args s = .error .pkChanged) :
-    ((∃ sets w, s = .update sets w) ∨ (∃ sets w ord lim, s = .updateLim sets w ord lim)) ∧
-      ∃ r, apply sc t args s = .ok r := by
+    (((∃ sets w, s = .update sets w) ∨ (∃ sets w ord lim, s = .updateLim sets w ord lim)) ∧
+      ∃ r, apply sc t args s = .ok r) ∨
+    (∃ rows asg, s = .upsert rows asg ∧ (asg.any fun a => sc.pk.contains a.1) = true) := by
   cases s with
-  | update sets w => exact ⟨Or.inl ⟨sets, w, rfl⟩, _, rfl⟩
-  | updateLim sets w ord lim => exact ⟨Or.inr ⟨sets, w, ord, lim, rfl⟩, _, rfl⟩
+  | update sets w => exact Or.inl ⟨Or.inl ⟨sets, w, rfl⟩, _, rfl⟩
+  | updateLim sets w ord lim => exact Or.inl ⟨Or.inr ⟨sets, w, ord, lim, rfl⟩, _, rfl⟩
   | deleteLim w ord lim => simp [stmtPhase1, apply] at h
   | delete w => simp [stmtPhase1, apply] at h
   | insert rows =>
@@ -84,7 +94,10 @@ theorem C16_only_key_changes_rejected (sc : Schema) (cfg : Cfg) (t : Table) (arg
   | failing s => simp [stmtPhase1] at h
   | upsert rows assign =>
     simp only [stmtPhase1] at h
-    split at h <;> simp at h
+    split at h
+    · rename_i hk
+      exact Or.inr ⟨rows, assign, rfl, hk⟩
+    · split at h <;> simp at h
 
 /-- a local transaction that goes through phase one leaves the table the plain driver leaves -/
 theorem C16_local_transparent (sc : Schema) (cfg : Cfg) (t : Table) (ltx : LocalTx) (t' : Table) (b : Branch)
@@ -121,8 +134,9 @@ theorem C16_local_error (sc : Schema) (cfg : Cfg) (t : Table) (ltx : LocalTx) (e
     · rename_i e' he
       simp only [Except.error.injEq] at h
       subst h
-      left
-      simp only [localPhase1, C16_stmt_error sc cfg t args s e' he]
+      rcases C16_stmt_error sc cfg t args s e' he with h1 | h1
+      · left; simp only [localPhase1, h1]
+      · right; simp only [localPhase1, h1]
     · rename_i t1 n he
       simp only [localPhase1]
       cases hp : stmtPhase1 sc cfg t args s with
@@ -140,7 +154,11 @@ theorem C16_local_error (sc : Schema) (cfg : Cfg) (t : Table) (ltx : LocalTx) (e
           | delete w => simp [stmtPhase1, apply] at hp
           | insert rows => simp only [stmtPhase1, he] at hp; simp at hp
           | failing s => simp [apply] at he
-          | upsert rows assign => simp only [stmtPhase1, he] at hp; simp at hp
+          | upsert rows assign =>
+            simp only [stmtPhase1] at hp
+            split at hp
+            · cases hp
+            · simp only [he] at hp; simp at hp
           | updateLim sets w ord lim =>
             simp only [stmtPhase1] at hp
             split at hp
